@@ -100,6 +100,8 @@ def correspond(ctx):
 
 
 def search(ctx, strength):
+    if strength == "thorough" and ctx.tier != "thorough":
+        strength = "escalated"      # something broke in a quick run: all thorough configurations, Python bodies only
     res = ab.finish_search(ctx, "c07_impl.py", {"mode": "search", "strength": strength, "seed": ctx.seed})
     ab.report_search(ctx, res)
 
